@@ -50,6 +50,36 @@ fn main() {
             println!("seq: {:?}", variants::seq::load_outcome(&b));
             0
         }
+        Some("hashes") if args.len() >= 7 => {
+            // determinism self-check: one line per run (index, event-log hash, case hash, violation class)
+            common::set_tier(&args[3]);
+            let prop = props::find(&args[1]).expect("property");
+            let batch = prop.batches.iter().find(|b| b.name == args[2]).expect("batch");
+            let seed: u64 = args[4].parse().unwrap();
+            let (lo, hi): (u64, u64) = (args[5].parse().unwrap(), args[6].parse().unwrap());
+            let sc = batch.scenario;
+            let (pid, bn) = (prop.id, batch.name);
+            std::thread::Builder::new()
+                .stack_size(16 << 20)
+                .spawn(move || {
+                    runner::install_panic_hook();
+                    for idx in lo..hi {
+                        let r = runner::run_seed(sc, driver::seed_for(seed, pid, bn, idx), false);
+                        println!(
+                            "{} {:016x} {:016x} {} {}",
+                            idx,
+                            r.hash,
+                            r.out.case_hash,
+                            r.trace.total_len(),
+                            r.violation.map(|v| v.class).or(r.harness_error.map(|e| format!("HARNESS:{e}"))).unwrap_or_else(|| "-".into())
+                        );
+                    }
+                })
+                .unwrap()
+                .join()
+                .unwrap();
+            0
+        }
         Some("list") => {
             for p in props::all() {
                 println!("{} {} batches={}", p.id, p.level, p.batches.iter().map(|b| b.name).collect::<Vec<_>>().join(","));
